@@ -164,16 +164,7 @@ def run(facts, rep, tier):
         rep.ob("C09.W1", "merge_all-folds-every-subschema", bool(loops) and bool(first), "first two subschemas are merged, then every remaining one is folded in")
 
 
-class PCanon(Canon):
-    """Canon with positional parameter names, so that the two operands of a binary merge stay distinguishable."""
-
-    def param_name(self, idx):
-        return "$P%d" % idx
-
-    def r(self, n, depth=0, env=None):
-        t = Canon.r(self, n, depth, env)
-        # `match (a, b) { (Some(aa), Some(bb)) => ..` : project the tuple literal
-        return t.replace("($P0, $P1).0", "$P0").replace("($P0, $P1).1", "$P1")
+from lib import PCanon  # noqa: E402
 
 
 def swap_sides(text, v0, v1):
